@@ -13,6 +13,7 @@
 -/
 import YashModel.Alias.Lemmas
 import YashModel.Alias.Refine
+import YashModel.Alias.Guard
 namespace YashModel.Alias
 
 /-! ## ★ subst_terminates -/
@@ -326,6 +327,49 @@ theorem model_eq_spec_checked (T : Table) (line : List Char)
     (hb : agreeB T (fuelFor T line) (init line) { rest := line } = true) :
     substText T line = substLine T line :=
   model_eq_spec_partial T line (agree_of_agreeB _ hb)
+
+theorem sim_init (line : List Char) : Sim (init line) ({ rest := line } : HState) := by
+  refine ⟨?_, rfl, rfl, rfl⟩
+  simp only [init, plain, chars, List.map_map]
+  exact (List.map_id' _).symm
+
+theorem corr_init (line : List Char) : Corr [] (plain line) := by
+  induction line with
+  | nil => trivial
+  | cons c t ih => exact ⟨rfl, ih⟩
+
+/-- ☆ (partial, stronger than `model_eq_spec_partial`) The recursion guards never disagree (invariant `Corr`:
+    the origin chain of every unconsumed character is the list of names of the regions that contain it),
+    so it is enough that the two formulations of the BLANK RULE give the same answer at every step
+    (`AgreeBlank`: `is_after_blank_ending_alias` walking back over the consumed buffer = the Spec's forward
+    flag).  Missing for the full theorem: `AgreeBlank` always holds. -/
+theorem model_eq_spec_blank_partial (T : Table) (line : List Char)
+    (hB : AgreeBlank T (fuelFor T line) (init line) { rest := line }) :
+    substText T line = substLine T line :=
+  model_eq_spec_partial T line (agree_of_agreeBlank _ (sim_init line) (corr_init line) hB)
+
+/-- ☆ (partial: the full `model_eq_spec` restricted to tables in which no value ends with a blank)
+    For EVERY such table — any number of aliases, recursive and mutually recursive bodies, global aliases,
+    reserved words / operators / quoting in values — and EVERY line, the implementation model's substituted
+    text equals the by-hand Spec's: no hypothesis about the run remains. -/
+theorem model_eq_spec_noblank_partial (T : Table) (hT : ∀ a ∈ T, endsBlank a.value = false)
+    (line : List Char) : substText T line = substLine T line := by
+  apply model_eq_spec_partial
+  apply agree_of_blank_inv (T := T) NoEb
+  · intro s h _ _ hp; exact noeb_blank hp
+  · intro s h s' h' hs _ hp hc e1 e2; exact noeb_step hT hs hp hc e1 e2
+  · exact sim_init line
+  · exact corr_init line
+  · refine ⟨(by intro c hc; cases hc), ?_, rfl, (by intro r hr; cases hr)⟩
+    intro c hc
+    simp only [init, plain, List.mem_map] at hc
+    obtain ⟨_, _, rfl⟩ := hc
+    rfl
+
+/-- non-vacuity of `model_eq_spec_noblank_partial`: a table with a cycle, a self-reference, a global alias
+    and a reserved word, none ending in a blank. -/
+example : ∀ a ∈ ([⟨"a", "b x".toList, false⟩, ⟨"b", "a".toList, false⟩, ⟨"c", "c c".toList, false⟩,
+    ⟨"g", "if".toList, true⟩] : Table), endsBlank a.value = false := by decide +kernel
 
 /-- non-vacuity: the hypothesis holds on a table with a cycle, blank-ending values, a quoted final blank and
     a non-ASCII value (byte length ≠ character length). -/
